@@ -56,7 +56,7 @@ TEXT = {
 
 PROVED = {
     "C01": "the extracted priority / drop-list / type / *of / site / error facts equal the documented ones (vm_compute on the record re-read from the source); the code-shaped rule queue (pop(0), remove) evaluates exactly the rules of the declarative skip-set reading, for every duplicate-free queue and arbitrary handlers; verdict iff no errors. PARTIAL: equality with the reference interpreter on all inputs is the differential run, the Spec being the same model at documented constants.",
-    "C02": "the extracted pipeline is the documented step order with its guards; a failing coercer keeps the value, files its error at the field's path and stops the chain; unknown-field rules never touch schema fields; items of the wrong length are not normalized.",
+    "C02": "the extracted pipeline is the documented step order with its guards; a failing coercer keeps the value, files its error at the field's path and stops the chain, and so does a failing rename handler (the stop test looks for the error the chain itself files); renaming a field to its own name changes nothing; unknown-field rules never touch schema fields; items of the wrong length are not normalized.",
     "C03": "every leaf rule handler returns normally for EVERY value (any nesting, unhashable members) given a constraint of the declared shape (`contains` and a mapping of `allowed` values for ANY constraint since the repairs e210946 / 2752c56); filing an error succeeds whenever the field's resolved rule set holds the rule. PARTIAL: the recursive skeleton and normalization are decided by the oracle and the diffed exception behaviour.",
     "C04": "a rejected assignment keeps schema and allow_unknown in force; all entry points decide alike (expand -> validate -> commit, extracted shape); unknown rule / unknown type / normalization rule inside *of / dangling field reference are rejected at the rule set that holds them; a rejected rules set rejects every rules set holding it at a recursion position of the documented grammar (items, keysrules, valuesrules, *of definitions, allow_unknown rule sets, list- and dict-schemas), hence by induction on the nesting a corruption at ANY depth of the inline structure rejects the schema (corrupted_is_rejected). PARTIAL: positions behind registry references, and that the real meta-schema is this grammar, are decided by the differential run and the corruption oracle.",
     "C05": "every write site extracted from the normalization functions is at depth 0 of an owned copy or re-binds the nested member to a copy first, hence no run of the site machine writes into a caller- or schema-owned object; a depth-1 site without the copy is refuted.",
